@@ -114,6 +114,7 @@ def observe(case: dict) -> dict:
         rec["batches"] = [(b["labels"], b["order"], b["exec"]) for b in simray.STATE.batches]
         rec["retries"] = simray.STATE.stats["retries"]
         rec["step_dt"] = float(ctx.app.clock.dt_step) if ctx.app is not None else None
+        rec["out_dt"] = float(case["config"]["time"]["output_step_sec"])
     finally:
         cleanup(ctx)
     return rec
@@ -125,6 +126,8 @@ def observe(case: dict) -> dict:
 def bookkeeping(rec: dict, viol: list, cnt: dict, background: bool):
     all_obs, all_missed = [], []
     last_complete = max([k for k, s in rec["steps"].items() if s.get("complete")], default=0)
+    sdt, odt = rec.get("step_dt") or 1.0, rec.get("out_dt") or (rec.get("step_dt") or 1.0)
+    last_saved = max([k for k in range(0, last_complete + 1) if round(k * sdt) % round(odt) == 0], default=0)
     for k in sorted(rec["steps"]):
         st = rec["steps"][k]
         if k == 0 or not st.get("complete"):
@@ -174,8 +177,12 @@ def bookkeeping(rec: dict, viol: list, cnt: dict, background: bool):
                     viol.append({"clause": "sensor-info-mismatch", "key": "info", "detail": f"step {k} job {j['target']}: sensor updates for {sorted(infos)}, tasked sensors {sorted(tasked)}"})
                 for sid, bs, tlt in j["sensor_info"]:
                     returned.setdefault(sid, []).append((bs, tlt))
-                all_obs.extend(j["obs"])
-                all_missed.extend(j["missed"])
+                # records become durable at the next output step: those of steps after the last output step of the run are still pending
+                if k <= last_saved:
+                    all_obs.extend(j["obs"])
+                    all_missed.extend(j["missed"])
+                else:
+                    cnt["records_pending_after_the_last_output_step"] = cnt.get("records_pending_after_the_last_output_step", 0) + len(j["obs"]) + len(j["missed"])
         sens_multi = [s for s, v in returned.items() if len({x for x in v}) > 1]
         if sens_multi:
             cnt["sensor_with_conflicting_job_pointings"] = cnt.get("sensor_with_conflicting_job_pointings", 0) + 1
